@@ -37,7 +37,7 @@ type c19Scenario struct {
 	Jobs  int    `json:"jobs"`  // jobs per submitter
 	Dur   int    `json:"dur"`   // 0 none, 1 Gosched, 2 50us, 3 2ms, 4 mixed
 	Procs int    `json:"procs"` // GOMAXPROCS of the child
-	Mode  string `json:"mode"`  // drain | race | saturated | idle
+	Mode  string `json:"mode"`  // drain | race | saturated | idle | tcp-drain | tcp-saturated (pool inside a real transport.TarsServer)
 	Seed  int64  `json:"seed"`
 }
 
@@ -93,6 +93,9 @@ func (l *c19Log) snapshot() [][2]int {
 const c19Slack = 10 * time.Second // every wait of a scenario that normally takes micro- to milliseconds
 
 func c19RunScenario(sc c19Scenario) c19ChildOut {
+	if strings.HasPrefix(sc.Mode, "tcp-") {
+		return c19RunTCP(sc)
+	}
 	total := sc.Subs * sc.Jobs
 	lg := &c19Log{ev: make([]int64, 4*total+64)}
 	var out c19ChildOut
@@ -324,8 +327,14 @@ func c19RunScenario(sc c19Scenario) c19ChildOut {
 	out.HighWater = int(atomic.LoadInt32(&high))
 	out.Note = fmt.Sprint(phase.Load())
 	out.Fails = append(out.Fails, c19Monitor(sc, out.Trace, out.Complete, out.HighWater)...)
+	if len(out.Trace) > c19MaxCoqTrace { // large configuration: the trace is checked by the monitor only (the validator is quadratic)
+		out.Note += fmt.Sprintf("; trace of %d events checked by the monitor only", len(out.Trace))
+		out.Trace = nil
+	}
 	return out
 }
+
+const c19MaxCoqTrace = 8000
 
 // c19PoolGoroutines counts the goroutines that are inside the pool's worker loop or its dispatcher.
 func c19PoolGoroutines() int {
@@ -431,8 +440,12 @@ func c19WorkerMain() {
 	}
 	out := c19RunScenario(sc)
 	b, _ := json.Marshal(out)
+	os.Stdout.Write([]byte("\n" + c19Marker))
 	os.Stdout.Write(b)
 }
+
+// the child's result follows this marker on stdout (anything the framework logs before it is ignored)
+const c19Marker = "C19RESULT "
 
 // ---------- parent ----------
 
@@ -460,7 +473,11 @@ func c19Child(sc c19Scenario) (c19ChildOut, string) {
 		return c19ChildOut{}, "child killed after timeout"
 	}
 	var out c19ChildOut
-	if err := json.Unmarshal([]byte(so.String()), &out); err != nil {
+	txt := so.String()
+	if i := strings.LastIndex(txt, c19Marker); i >= 0 {
+		txt = txt[i+len(c19Marker):]
+	}
+	if err := json.Unmarshal([]byte(txt), &out); err != nil {
 		return c19ChildOut{}, "child output: " + err.Error()
 	}
 	return out, ""
@@ -517,6 +534,9 @@ func c19Gen(tier string, rng *rand.Rand) []c19Case {
 		sc := c19Scenario{W: w, Q: q, Mode: mode, Seed: rng.Int63(), Procs: procs[rng.Intn(3)], Dur: rng.Intn(5)}
 		sc.Subs = 1 + rng.Intn(16)
 		switch mode {
+		case "tcp-drain", "tcp-saturated":
+			sc.Subs = 1 + rng.Intn(4)
+			sc.Jobs = (30+rng.Intn(60))/sc.Subs + 1
 		case "idle":
 			sc.Subs = 1 + rng.Intn(2)
 			sc.Jobs = rng.Intn(3)
@@ -546,11 +566,32 @@ func c19Gen(tier string, rng *rand.Rand) []c19Case {
 			}
 		}
 	}
+	// the pool inside a real TCP server
+	tws, tqs := []int{1, 2, 8}, []int{0, 2, 16}
+	for _, w := range tws {
+		for _, q := range tqs {
+			cs = append(cs, mk(w, q, "tcp-drain"))
+			if tier == "thorough" || q != 2 {
+				cs = append(cs, mk(w, q, "tcp-saturated"))
+			}
+		}
+	}
+	if tier == "thorough" { // the sizes of the repository's own TestNewPool and beyond the grid; monitor only
+		for _, b := range [][4]int{{1000, 10000, 8, 5000}, {1000, 10000, 16, 1500}, {256, 0, 32, 600}, {3, 5000, 4, 4000}, {5000, 100, 4, 5000}} {
+			for _, m := range []string{"drain", "race"} {
+				cs = append(cs, c19Case{Sc: c19Scenario{W: b[0], Q: b[1], Subs: b[2], Jobs: b[3], Dur: []int{0, 1, 4}[rng.Intn(3)], Procs: procs[rng.Intn(3)], Mode: m, Seed: rng.Int63()}})
+			}
+		}
+	}
 	extra := 200
 	if tier == "thorough" {
 		extra = 4000
 	}
 	for i := 0; i < extra; i++ {
+		if i%16 == 15 {
+			cs = append(cs, mk(ws[rng.Intn(5)], qs[rng.Intn(4)], []string{"tcp-drain", "tcp-saturated"}[rng.Intn(2)]))
+			continue
+		}
 		cs = append(cs, mk(ws[rng.Intn(5)], qs[rng.Intn(5)], modes[rng.Intn(3)]))
 	}
 	return cs
